@@ -13,4 +13,10 @@ def groupConsistent (g : String × List (String × Nat)) : Bool :=
   | [] => true
   | (_, v) :: r => r.all (fun pv => pv.2 == v)
 
+/-- every dialect that lists the message takes it from the same defining package, under the same id -/
+def sameDefinition (g : String × List (String × String × Nat)) : Bool :=
+  match g.2 with
+  | [] => true
+  | (_, pkg, id) :: r => r.all (fun x => x.2.1 == pkg && x.2.2 == id)
+
 end Mav
